@@ -38,6 +38,9 @@ import Thanos.Model.Rewrite
              | O                  a synchronous Pop: receive + body; `blocked` when there is no token
              | W                  a popper that is left waiting on the channel when there is no token; the
                                   next Push that sends hands the token over and the popper runs
+             | K<alerts>          a Pop (the token is there) held inside its body, right after it cut its batch
+                                  (at the `popped` counter), while a Push of <alerts> is attempted; with the
+                                  body under the mutex the Push has to wait: receive, pop body, then the push
              | R<elem>{/<elem>}   a round: all elements queue up on the mutex (held by the harness) in this
                                   order and then run in this order; elem = p<alerts> (a pusher) | g (a popper
                                   that received the token BEFORE any element of the round ran; at most one)
@@ -187,6 +190,7 @@ inductive Item where
   | push (kept : List Nat) (n : Nat)
   | pop
   | wait
+  | popThenPush (kept : List Nat) (n : Nat)
   | round (es : List Elem)
 
 def parseAlerts (s : String) : Option (List Nat × Nat) := do
@@ -208,6 +212,7 @@ def parseItem (s : String) : Option Item :=
   if s = "O" then some .pop else if s = "W" then some .wait else
   match s.toList with
   | 'P' :: rest => do let (k, n) ← parseAlerts (String.ofList rest); pure (.push k n)
+  | 'K' :: rest => do let (k, n) ← parseAlerts (String.ofList rest); pure (.popThenPush k n)
   | 'R' :: rest => do let es ← (splitChar '/' (String.ofList rest)).mapM parseElem; pure (.round es)
   | _ => none
 
@@ -258,6 +263,10 @@ def itemStep (c : Cfg) (r : Run) : Item → Run
     if r.waiting then { r with bad := true }
     else if r.s.token then takePop c r
     else { r with waiting := true }
+  | .popThenPush kept _ =>
+    -- the whole body of Pop is under the mutex: the Push runs after it
+    if r.waiting || !r.s.token then { r with bad := true }
+    else pushStep c (takePop c r) kept
   | .round es => roundStep c r es
 
 def runItems (c : Cfg) (items : List Item) : String :=
